@@ -1003,6 +1003,43 @@ bool ScriptVM::Process(ScriptContext& context, uinttime_t interruptTime)
 
             try
             {
+                if (a.IsConstArray() && a.arraysize() > 1)
+                {
+                    // a group of listeners ($name with several bearers): assign the field on
+                    // every member, over a copy like ExecCmdMethodCommon does for commands
+                    ScriptVariable array = a;
+                    array.CastConstArrayValue();
+                    const size_t count = array.arraysize();
+
+                    const opval_t* const fieldPos = m_CodePos;
+                    skipField();
+                    eventCalled = true;
+
+                    for (uintptr_t i = 1; i <= count; i++)
+                    {
+                        Listener* const member = array.listenerAt(i);
+                        if (member)
+                        {
+                            // re-read the field operands for each member; copies the value
+                            m_CodePos = fieldPos;
+
+                            try
+                            {
+                                loadStoreTop(eventSystem, member);
+                            }
+                            catch (...)
+                            {
+                                // the value is consumed even though a member's setter refused it
+                                m_Stack.Pop();
+                                throw;
+                            }
+                        }
+                    }
+
+                    m_Stack.Pop();
+                    break;
+                }
+
                 Listener* listener = a.listenerValue();
 
                 if (listener == nullptr)
